@@ -903,6 +903,9 @@ func (ex *Explorer) runPath(it *workItem) (forks [][]decision) {
 			i.callSSA(nil, token.NoPos, fn, nil, nil)
 		}()
 	}
+	if ex.run.Cfg.Debug && os.Getenv("VERIF_DEBUG_PATHS") != "" {
+		ex.debugPath(i, outcome+" "+msg)
+	}
 	// undo all writes of this path
 	forks = i.forks
 	i.forks = nil
@@ -1007,3 +1010,19 @@ func (ex *Explorer) samplePath(i *interpreter, outcome string) map[string]interf
 }
 
 var _ = types.Typ
+
+// debugPath prints the branch sites of a finished path (debug aid).
+func (ex *Explorer) debugPath(i *interpreter, outcome string) {
+	var sb strings.Builder
+	for k, c := range i.pc {
+		if k < len(i.pc)-14 {
+			continue
+		}
+		s := c.String()
+		if len(s) > 90 {
+			s = s[:90] + "…"
+		}
+		sb.WriteString("\n    " + s)
+	}
+	fmt.Fprintf(os.Stderr, "PATH %s outcome=%s decisions=%d pc:%s\n", ex.job.Key(), outcome, len(i.decisions), sb.String())
+}
